@@ -8,6 +8,7 @@ any reply packet or none, reply in time or late).  Helper lemmas: Proofs/C12, C1
 -/
 import CfVerif.Proofs.C12Flash
 import CfVerif.Proofs.C12Retry
+import CfVerif.Proofs.C12Abort
 namespace CfVerif.C12
 open CfVerif
 
@@ -142,6 +143,76 @@ theorem write_flash_ok_only_if_acked (tid bp fp cnt : Nat) (ht : tid < 256) (hb 
   obtain ⟨i, p, hi, hr, hp⟩ := writeFlash_acked tid bp fp cnt ht hb hf hn L hlate L' c h
   exact ⟨i, p, by have := gen_constants.2.2.2.2.2.2.2; omega, hr, hp⟩
 
+/-- **Abort on failure.**  Environment as in `flash_exact`, but the script carries no unrelated traffic (every packet
+that comes back is a flash-write reply of this target, with any status: `ScriptClean`); no terminate callback.
+Then the run IS the reference run `refRun` of Spec/C12, for every pattern of lost commands, lost / late / negative /
+positive replies: the transmitted packets are exactly the reference's and the result is `done` iff the reference
+completes, else `flashFailed code`.  In the reference (read its definition): each flush transmits its command
+`(refLoop ..).1 ≤ 6` times (`ref_attempts_le`), succeeds iff a status-1 reply reaches the client within the first
+5 attempts, and a flush that does not succeed ENDS the run — the trace stops after its last attempt. -/
+theorem abort_on_failure (g : Geom) (tid : Nat) (image : List UInt8) (ov : Option Int) (L : Link Env)
+    (haddr : g.addr = (tid : Int)) (htid : tid < 256)
+    (hps : 0 < g.pageSize ∧ g.pageSize < 65536) (hbp : 0 < g.bufferPages ∧ g.bufferPages < 65536)
+    (hfp : g.flashPages < 65536) (hlen : 0 < image.length) (hS : 0 ≤ effStart g ov)
+    (hfit : (image.length : Int) ≤ ((g.flashPages : Int) - effStart g ov) * g.pageSize)
+    (hlate : L.st.lateQ = []) (hclean : ScriptClean tid L.st.script) :
+    let S := (effStart g ov).toNat
+    let ref := refRun tid (Gen.C12.retryInit + 1) Gen.C12.uploadFlushAt g S image
+      (nPages image.length g.pageSize) 0 0 L.st.script
+    let R := internalFlash (targetPeer tid) L g image ov []
+    R.1.sent = L.sent ++ ref.1 ∧
+    R.2 = (match ref.2 with | none => .done | some code => .flashFailed code) := by
+  intro S ref R
+  have hSe : effStart g ov = (S : Int) := by simp only [S]; omega
+  have hf : Fits g tid S image := fits_of_guard g tid S image haddr htid hps hbp hfp hlen (by rw [← hSe]; exact hfit)
+  obtain ⟨h1, h2⟩ := internalFlash_ref hf ov hSe L hlate hclean
+  refine ⟨h1, ?_⟩
+  rw [h2]
+  cases (refRun tid (Gen.C12.retryInit + 1) Gen.C12.uploadFlushAt g S image
+      (nPages image.length g.pageSize) 0 0 L.st.script).2 <;> rfl
+
+/-! ### the reference semantics says what the clause says -/
+
+/-- a flush transmits its command at most `tries` times -/
+theorem ref_attempts_le (tid : Nat) : ∀ (n : Nat) (pending : Option Pkt) (s : List Outcome),
+    (refLoop tid n pending s).1 ≤ n := by
+  intro n
+  induction n with
+  | zero => intro p s; simp [refLoop]
+  | succ n ih =>
+    intro p s
+    unfold refLoop
+    cases p with
+    | some r => simp
+    | none =>
+      simp only
+      split
+      · simp
+      · have := ih (if (nextOutcome tid s).1.late = true then (nextOutcome tid s).1.reply else none) (nextOutcome tid s).2
+        simp only; omega
+
+/-- a command whose `n` transmissions all remain without reply uses all `n` attempts and fails -/
+theorem ref_unanswered (tid : Nat) : ∀ (n : Nat) (s : List Outcome),
+    (∀ i, i < n → (outcomeAt tid s i).reply = none) → refLoop tid n none s = (n, none) := by
+  intro n
+  induction n with
+  | zero => intro s _; rfl
+  | succ n ih =>
+    intro s h
+    have h0 : (nextOutcome tid s).1.reply = none := by simpa [outcomeAt] using h 0 (by omega)
+    have hrest : ∀ i, i < n → (outcomeAt tid (nextOutcome tid s).2 i).reply = none := by
+      intro i hi
+      have := h (i + 1) (by omega)
+      have e : (nextOutcome tid s).2 = s.drop 1 := by cases s <;> rfl
+      simpa [outcomeAt, e, List.drop_drop, Nat.add_comm] using this
+    unfold refLoop
+    simp only [h0, ite_self, ih _ hrest]
+
+/-- a positive reply in time to the first transmission: one attempt, success -/
+theorem ref_answered_at_once (tid : Nat) (n : Nat) (s : List Outcome) :
+    refLoop tid (n + 2) none (Outcome.okNow tid :: s) = (1, some (wfReply tid 1 0)) := by
+  simp [refLoop, nextOutcome, Outcome.okNow]
+
 /-! ## Non-vacuity: concrete instances of the hypotheses and of the conclusions
 
 Page size 4, 3 buffers, 20 flash pages, start page 2, a 17-byte image (5 pages: one full buffer round and a final
@@ -178,6 +249,16 @@ example : (internalFlash (targetPeer 255)
 example : (writeFlash (targetPeer 255)
       { exLink with st := { tgt := exTarget, script := List.replicate 5 .cmdLost ++ [.okNow 255], lateQ := [] } } 255 0 2 3).2
     = .ok (false, -1) := by decide
+example : ScriptClean 255 exScript := by
+  intro o ho p hp
+  simp only [exScript, List.mem_cons, List.not_mem_nil, or_false] at ho
+  rcases ho with rfl | rfl | rfl
+  · cases hp
+  · exact ⟨1, 0, by cases hp; rfl⟩
+  · cases hp
+example : (refRun 255 6 24 exGeom 2 exImage 5 0 0 exScript).2 = none ∧
+    (refRun 255 6 24 exGeom 2 exImage 5 0 0 (List.replicate 6 .replyLost)).2 = some (-1) ∧
+    (refRun 255 6 24 exGeom 2 exImage 5 0 0 [.okNow 255, .negLate 255 9, .cmdLost]).2 = some 9 := by decide
 example : (uploadBuffer (targetPeer 255) exLink 255 1 0 (List.replicate 50 7)).1.sent.map (·.data.length) = [31, 31, 6] := by
   decide
 
